@@ -44,7 +44,8 @@ def _job(args):
     os.makedirs(tmp)
     out = {"kind": kind, "spec": spec}
     if kind == "product":
-        cn, sn, en, ln, tn, check = spec
+        cn, sn, en, ln, tn, check = spec[:6]
+        stale = len(spec) > 6 and spec[6]
         structured = STRUCT[sn]
         tree = dict((TREES_STRUCT if structured else TREES)[tn])
         tree["Breadlog.yaml"] = cli.config_yaml("./src", structured=structured, use_cache=CACHE[cn], extensions=EXTS[en],
@@ -52,6 +53,8 @@ def _job(args):
         lk = LOCKS[ln]
         if lk is not None:
             tree["Breadlog.lock"] = cli.lock_yaml(lk) if isinstance(lk, int) else lk
+        if stale:
+            tree["Breadlog.lock.tmp"] = cli.lock_yaml(2)      # left by an earlier run that was killed between write and rename
     else:
         name, check = spec
         tree = dict(TREES["missing"])
@@ -100,7 +103,7 @@ def _job(args):
 
 def model_and_judge(o, v):
     """The reference model of the guide, applied to one run of the product."""
-    cn, sn, en, ln, tn, check = o["spec"]
+    cn, sn, en, ln, tn, check = o["spec"][:6]
     use_cache = CACHE[cn] is not False          # default true
     structured = bool(STRUCT[sn])               # default false
     exts = EXTS[en] or ["rs"]                   # default [rs]
@@ -109,7 +112,7 @@ def model_and_judge(o, v):
     bad = []
     if o["panicked"] or o["signal"] is not None:
         bad.append("abnormal-termination")
-    changed = [f for f in set(before) | set(after) if before.get(f) != after.get(f)]
+    changed = [f for f in set(before) | set(after) if before.get(f) != after.get(f) and f != "Breadlog.lock.tmp"]
     lock_before = before.get("Breadlog.lock")
     lock_after = after.get("Breadlog.lock")
     if not scope:
@@ -198,6 +201,12 @@ def run(tier, v):
         n += 1
         os.makedirs(w)
         jobs.append(("product", spec, w))
+    # the same product for edit mode with a stale Breadlog.lock.tmp lying next to the configuration
+    for spec in itertools.product(CACHE, ["omitted"], ["omitted"], LOCKS, ["missing"], (False,)):
+        w = os.path.join(base, "j%d" % n)
+        n += 1
+        os.makedirs(w)
+        jobs.append(("product", spec + (True,), w))
     for name in INVALID:
         for check in (True, False):
             w = os.path.join(base, "j%d" % n)
